@@ -228,6 +228,7 @@ class IdentServer(_RecMixin, UDSServer):
             return {(int(s), int(sf)): set(ids) for s, d in model.get(key, {}).items() for sf, ids in d.items()}
 
         self.pos, self.abn, self.sil, self.drop = sets("pos"), sets("abn"), sets("sil"), sets("drop")
+        self.wrongecho = sets("wrongecho")
         self.absent = {int(s): v for s, v in model.get("absent", {}).items()}
         sup: dict[UDSIsoServices, list[int] | None] = {UDSIsoServices.DiagnosticSessionControl: self.sessions}
         if self.sess_read:
@@ -257,6 +258,11 @@ class IdentServer(_RecMixin, UDSServer):
             return ident_positive(svc, sf, ident), False
         if ident in self.pos.get(key, ()):
             return ident_positive(svc, sf, ident), ident in self.drop.get(key, ())
+        if ident in self.wrongecho.get(key, ()):
+            other = (ident + 1) % (0x80 if svc == 0x27 else 0x10000)
+            if svc == 0x27 and other % 2 != ident % 2:
+                other = (ident + 2) % 0x80
+            return ident_positive(svc, sf, other), False
         if ident in self.abn.get(key, ()):
             return bytes([0x7F, svc, 0x33 if ident % 2 else 0x22]), False
         if ident in self.sil.get(key, ()):
